@@ -694,6 +694,18 @@ func finish(agg *Agg, start time.Time, replayRoot string) int {
 		}
 	}
 	if len(fresh) > 0 {
+		hist := map[string]int{}
+		for _, cv := range fresh {
+			hist[cv.V.Class]++
+		}
+		hk := make([]string, 0, len(hist))
+		for k := range hist {
+			hk = append(hk, k)
+		}
+		sort.Strings(hk)
+		for _, k := range hk {
+			fmt.Printf("  violation-class %s cases=%d\n", k, hist[k])
+		}
 		for i, cv := range fresh {
 			if i >= 10 {
 				break
